@@ -30,6 +30,8 @@ class Program:
         self.aliases = {}        # alias name -> member values
         self.commands = []       # phony command names
         self.always = []         # values produced by always_outdated steps
+        self.links = []          # values that are symlink / hardlink copies
+        self.test_args = []      # built files passed as later arguments of test()
         self.declared_deps = []  # (consumer primary path, dependency path): extra_deps
         self.nsteps = 0
         self.kinds = []
@@ -46,6 +48,8 @@ class Program:
         p.commands = list(self.commands)
         p.always = list(self.always)
         p.declared_deps = list(self.declared_deps)
+        p.links = list(self.links)
+        p.test_args = list(self.test_args)
         p.nsteps = self.nsteps
         p.kinds = list(self.kinds)
         return p
@@ -157,15 +161,31 @@ def expand(p, alphabet):
                     q.always.append(v)
             out.append(q)
     if 'copy' in alphabet:
-        for ik, iv in [('data', None)] + [('val', v) for v in p.of(FILE)]:
-            q = new('copy+' + ik)
+        for (ik, iv), mode in itertools.product([('data', None)] + [('val', v) for v in p.of(FILE)],
+                                                ('copy', 'symlink', 'hardlink')):
+            q = new('copy+' + ik + '+' + mode)
             if ik == 'data':
                 q.files['d%d.in' % i] = 'data %d\n' % i
                 inp = repr('d%d.in' % i)
             else:
                 inp = iv.var
-            q.lines.append("c%d = copy_file('c%d.txt', %s)" % (i, i, inp))
-            q.values.append(Value('c%d' % i, FILE, 'c%d.txt' % i, i))
+            q.lines.append("c%d = copy_file('c%d.txt', %s, mode=%r)" % (i, i, inp, mode))
+            v = Value('c%d' % i, FILE, 'c%d.txt' % i, i)
+            q.values.append(v)
+            if mode != 'copy':
+                q.links.append(v)
+            out.append(q)
+    if 'vshlib' in alphabet:
+        q = new('vshlib')
+        f = repr(src(q, i, header=False))
+        q.lines.append("v%d = shared_library('v%d', files=[%s], version='1.2.3', soversion='1')" % (i, i, f))
+        q.values.append(Value('v%d' % i, LIB, 'libv%d.so' % i, i))
+        out.append(q)
+    if 'testarg' in alphabet:
+        for v in p.file_values():
+            q = new('testarg')
+            q.lines.append("test(['rec', 'T%d', %s])" % (i, v.var))
+            q.test_args.append(v)
             out.append(q)
     if 'alias' in alphabet:
         vals = p.values
@@ -210,8 +230,8 @@ def expand(p, alphabet):
     return out
 
 
-FULL = ['obj', 'exe', 'slib', 'shlib', 'step1', 'step2', 'stepao', 'stepcmd', 'copy', 'alias',
-        'command', 'test', 'default', 'install']
+FULL = ['obj', 'exe', 'slib', 'shlib', 'vshlib', 'step1', 'step2', 'stepao', 'stepcmd', 'copy', 'alias',
+        'command', 'test', 'testarg', 'default', 'install']
 
 
 def programs(k, alphabet=FULL):
